@@ -379,3 +379,71 @@ def attribution_probes(ck):
         elif not hit:
             ck.fail(["C13", "missed-fault", "attribution:" + tag], "the fault %s in %s is not reported at its site" % (site, ff), case, json.dumps(per)[:300], "a diagnostic covering %d..%d of %s" % (lo, hi, ff))
     ck.count("attribution_probes", len(cases), {t for t, _, _ in cases}, sample={"files": cases[1][1]})
+
+
+# ---------------------------------------------------------------------------------------------------
+# block-scope matrix: a `defvar` declared inside a block (the branches of an `if`, an `else` that starts with another `if`, a
+# `foreach` body, a `let ... in` block, a multiclass body) after every kind of preceding statement ends with that block: a use
+# behind the block resolves to the outer variable of the same name, or to nothing
+def block_scope_matrix(ck, prop):
+    wrappers = [
+        ("if-then", "if 1 then {\n%s}\n", False),
+        ("if-else", "if 0 then {\n  def Dm1 : K<1>;\n} else {\n%s}\n", False),
+        ("else-if-then", "if 0 then {\n  def Dm2 : K<1>;\n} else if 1 then {\n%s}\n", False),
+        ("foreach", "foreach i = [1] in {\n%s}\n", False),
+        ("let-in", "let f = 1 in {\n%s}\n", False),
+        ("if-in-foreach", "foreach i = [1] in {\n  if 1 then {\n%s  }\n}\n", False),
+        ("multiclass", "multiclass MM<int q> {\n%s}\ndefm inst : MM<1>;\n", True),
+    ]
+    prefixes = [
+        ("first", ""),
+        ("after-if", "  if 1 then {\n    def PA : K<1>;\n  }\n"),
+        ("after-if-else", "  if 0 then {\n    def PB : K<1>;\n  } else {\n    def PC : K<2>;\n  }\n"),
+        ("after-else-if", "  if 0 then def PH : K<1>; else if 1 then def PI : K<2>; else def PJ : K<3>;\n"),
+        ("after-foreach", "  foreach j = [1] in {\n    def PD#j : K<j>;\n  }\n"),
+        ("after-let", "  let f = 2 in {\n    def PE : K<1>;\n  }\n"),
+        ("after-defvar", "  defvar other = 1;\n"),
+        ("after-def", "  def PG : K<1>;\n"),
+    ]
+    cases = []
+    for wname, wtext, in_mc in wrappers:
+        for pname, ptext in prefixes:
+            for outer in (True, False):
+                body = ptext + "  defvar w = 16;\n  def %s : K<w>;\n" % ("_in" if in_mc else "In")
+                if in_mc:
+                    body = re.sub(r"def (P[A-J])", r"def _\1", body)
+                text = "class K<int v> { int f = v; }\n" + ("defvar w = 8;\n" if outer else "") + wtext % body + "def After : K<w>;\n"
+                cases.append(("%s/%s/%s" % (wname, pname, "shadow" if outer else "ended"), text, outer))
+    lines = []
+    for _, text, outer in cases:
+        use_after = text.rindex("K<w>") + 2
+        use_in = text.index("K<w>") + 2
+        lines.append("ws " + json.dumps({"files": {"/main.td": text}, "root": "/main.td", "queries": [["diagnostics"], ["goto", "/main.td", use_after], ["goto", "/main.td", use_in]]}))
+    res = core.impl(lines, tag="bsm" + prop)
+    for (name, text, outer), r in zip(cases, res):
+        case = {"files": {"/main.td": text}, "root": "/main.td", "detail": {"probe": name}}
+        try:
+            ans = json.loads(r)
+        except Exception:
+            ck.fail([prop, "crash", "block-scope-matrix"], "probe aborts: %s" % r[:80], case, r[:200], "answers")
+            continue
+        use_after = text.rindex("K<w>") + 2
+        inner_decl = text.index("defvar w = 16") + 7
+        outer_decl = text.index("defvar w = 8") + 7 if outer else None
+        ds = [d for _, dl in ans[0] for d in dl]
+        if prop == "C05":
+            want_after = ["/main.td", outer_decl, outer_decl + 1] if outer else None
+            if ans[1] != want_after:
+                ck.fail(["C05", "goto", "block-scope:" + name.split("/")[0]], "a use behind a block resolves to %s: the block's own `defvar` ends with the block (%s)" % (ans[1], name),
+                        case, json.dumps(ans[1]), json.dumps(want_after))
+            if ans[2] != ["/main.td", inner_decl, inner_decl + 1]:
+                ck.fail(["C05", "goto", "block-scope-inner:" + name.split("/")[0]], "a use inside a block does not resolve to the block's own `defvar` (%s): %s" % (name, ans[2]),
+                        case, json.dumps(ans[2]), json.dumps(["/main.td", inner_decl, inner_decl + 1]))
+        else:
+            if outer and ds and validcorpus.tblgen_accepts(text, "bsm_" + re.sub(r"[^A-Za-z0-9]+", "_", name)) is not False:
+                ck.fail(["C13", "false-diagnostic", "block-scope:" + name.split("/")[0]], "a well-formed program (accepted by llvm-tblgen) produces diagnostics: %s" % ds[:2], case,
+                        json.dumps(ds)[:300], "no diagnostics")
+            if not outer and not any(a <= use_after and use_after + 1 <= b for _, a, b, _ in ds):
+                ck.fail(["C13", "missed-fault", "block-scope:" + name.split("/")[0]], "a use of a block's `defvar` behind the block is not reported (%s)" % name, case,
+                        json.dumps(ds)[:300], "a diagnostic covering %d..%d" % (use_after, use_after + 1))
+    ck.count("block_scope_matrix", len(cases), {c[0] for c in cases}, sample={"probe": cases[3][0], "text": cases[3][1]})
